@@ -65,6 +65,7 @@ class Index(object):
     self.tnew, self.tcancel, self.fires, self.tstart = {}, {}, {}, {}
     self.overlaps, self.xexc, self.killed, self.runexc = [], [], [], []
     self.wedged, self.deadlocks = [], []
+    self.rfs = {}       # (tid, pc) -> [(seq, k, time, outcome)]
     self.regs = []
     self.final = {}
     self.stop = None
@@ -103,6 +104,8 @@ class Index(object):
         self.killed.append(e)
       elif k == "runexc":
         self.runexc.append(e)
+      elif k == "rf":
+        self.rfs.setdefault((e[1], e[2]), []).append((seq, e[3], e[4], e[5]))
       elif k == "wedged":
         self.wedged.append(e)
       elif k == "deadlock":
@@ -172,7 +175,7 @@ def check(case, log):
 
   # ------------------------------------------------------------------ the scheduler itself
   for e in ix.runexc:
-    if e[1] in ("TaskError", "SubError"):
+    if e[1] in ("TaskError", "SubError", "HBase", "RfError", "TimerError"):
       fail("raising-task-kills-scheduler", "an exception raised by a task escaped Scheduler.run():\n" + e[3])
     else:
       fail("scheduler-died", "Scheduler.run() raised %s at %s:\n%s" % (e[1], e[2], e[3]), exc=e[1], where=e[2])
@@ -207,7 +210,7 @@ def check(case, log):
     xseen.add(tid)
     how = ix.ends.get(tid, (0, 0, 0, None))[3]
     target = tid in P and P[tid].get("form") == "target"
-    if how == "raise" and exc == "TaskError":
+    if how == "raise" and exc in ("TaskError", "HBase"):
       continue                      # the program's own `raise`
     if how == "uncaught":
       continue                      # the program let its sub-task's exception pass
@@ -235,10 +238,21 @@ def check(case, log):
   for e in ix.killed:
     name, blocking, last = e[1], e[2], e[3]
     exc = last.split(":", 1)[0].split(".")[-1] if last else "?"
+    if name not in P and ": sub:" in last and last.split(": sub:", 1)[1].strip() in P:
+      name = last.split(": sub:", 1)[1].strip()      # a plain-function sub-task runs under task_function's own wrapper name
     if name in xseen and not blocking:
       continue
     if name in poisoned:
       continue
+    if name.startswith("T") and name[1:].isdigit() and not blocking:
+      # a timer whose callback raised (scripted): the Timer task is de-scheduled like any task that raises
+      fl = ix.fires.get(int(name[1:]), [])
+      if fl and fl[-1][3] in ("raise", "raise-base") and exc == ("HBase" if fl[-1][3] == "raise-base" else "TimerError"):
+        continue
+    if name in P and P[name]["sub"] is not None and not blocking and exc == "HBase":
+      sret = P[name]["sub"].get("ret", "end")
+      if ix.ends.get(name, (0, 0, 0, None))[3] == "raise" and isinstance(sret, dict) and sret.get("base"):
+        continue      # the sub-task's own scripted BaseException; what became of its caller is judged below
     cur = _outstanding_op(ix, name) if name in ix.steps else None
     fail("task-killed", "the scheduler reported that task %s caused an exception%s: %s (outstanding request %r)" % (
         name, " during a blocking operation" if blocking else "", last, cur), exc=exc, op=(cur or {}).get("op"))
@@ -280,7 +294,7 @@ def check(case, log):
     for (seq, step, pc, time, val) in st:
       if isinstance(val, list) and len(val) == 2 and val[0] == "ret":
         tokens.setdefault(val[1], []).append(tid)
-      if isinstance(val, dict) and "exc" in val and val["exc"][0] == "SubError":
+      if isinstance(val, dict) and "exc" in val and val["exc"][0] in ("SubError", "HBase"):
         tokens.setdefault(val["exc"][1], []).append(tid)
   srecv_claimed = set()
 
@@ -334,6 +348,15 @@ def check(case, log):
           wk = [a for a in ix.acts if a[4] == "wake" and a[5] == tid and a[6] and a[0] > rseq]
           if wk:
             fail("wake-lost", "%s blocked at %s, was woken by %s at %s and never ran again" % (tid, rtime, wk[0][1], wk[0][3]))
+        elif kind == "rfop":
+          calls = ix.rfs.get((tid, pc), [])
+          last_t = calls[-1][2] if calls else rtime
+          if calls and calls[-1][3] != "abort":
+            fail("rf-result-lost", "%s: the return function of %r completed (%s) at %s but the task was never resumed" % (
+                tid, op, calls[-1][3], last_t), how=calls[-1][3])
+          elif last_t + (op.get("delay") or 0) <= stop_time:
+            fail("rf-slice-never-run", "%s: %r requested at %s: after %d call(s) of its return function the next slice (due %s) never came; idle at %s" % (
+                tid, op, rtime, len(calls), last_t + (op.get("delay") or 0), stop_time))
         elif kind == "acquire" and op.get("blocking", True):
           # it waits for the lock: every release() after its request must have handed the lock to some waiter
           for otid, orq in ix.reqs.items():
@@ -352,8 +375,13 @@ def check(case, log):
         elif kind == "call":
           stid = "%s/%d" % (tid, pc)
           if stid in ix.ends:
-            fail("subtask-result-lost", "%s: sub-task %s ended (%s) at %s but the caller was never resumed" % (
-                tid, stid, ix.ends[stid][3], ix.ends[stid][2]))
+            sret = (op.get("sub") or {}).get("ret", "end")
+            if ix.ends[stid][3] == "raise" and isinstance(sret, dict) and sret.get("base"):
+              fail("subtask-result-lost", "%s: sub-task %s raised a BaseException that is not an Exception at %s; the caller neither "
+                   "received it nor was it ever resumed" % (tid, stid, ix.ends[stid][2]), how="base-exception")
+            else:
+              fail("subtask-result-lost", "%s: sub-task %s ended (%s) at %s but the caller was never resumed" % (
+                  tid, stid, ix.ends[stid][3], ix.ends[stid][2]))
           elif stid not in ix.steps:
             fail("subtask-never-run", "%s: sub-task %s never started" % (tid, stid))
         continue
@@ -419,7 +447,7 @@ def check(case, log):
         elif ret == "end":
           want = None
         elif "raise" in ret:
-          want = {"exc": ["SubError", "sub:" + stid]}
+          want = {"exc": ["HBase" if ret.get("base") else "SubError", "sub:" + stid]}
         elif ret.get("v") == "token":
           want = ["ret", stid]
         else:
@@ -429,6 +457,25 @@ def check(case, log):
           got = ("exc:" + str(val["exc"][0])) if isinstance(val, dict) and "exc" in val else "value"
           fail("subtask-result-wrong", "%s: sub-task %s ended with %r but the caller received %r" % (tid, stid, want, val),
                how=how, got=got)
+      elif kind == "rfop":
+        script = list(op.get("script") or [{"v": "token"}])
+        calls = [c for c in ix.rfs.get((tid, pc), []) if c[0] < wseq]
+        outs = [c[3] for c in calls]
+        wantouts = ["abort"] * (len(script) - 1) if all(o == "abort" for o in script[:-1]) else None
+        lastspec = script[-1]
+        if lastspec == "exc":
+          want, lastout = {"exc": ["RfError", "rf:%s/%d" % (tid, pc)]}, "exc"
+        else:
+          v = lastspec.get("v") if isinstance(lastspec, dict) else None
+          want, lastout = (["rf", tid, pc] if v == "token" else v), "value"
+        if wantouts is not None and outs != wantouts + [lastout]:
+          fail("rf-call-count", "%s: the return function of %r was called with outcomes %r, scripted %r" % (tid, op, outs, wantouts + [lastout]))
+        elif val != want or type(val) != type(want):
+          fail("rf-result-wrong", "%s: the return function of %r ended with %r but the task received %r" % (tid, op, want, val),
+               how=lastout)
+        d = op.get("delay") or 0
+        if d and wtime < rtime + d * len(script):
+          fail("resumed-early", "%s: %r requested at %s resumed at %s, before %s" % (tid, op, rtime, wtime, rtime + d * len(script)), op=kind)
       elif kind == "acquire":
         if op.get("blocking", True) and val is not True:
           fail("acquire-value", "%s: blocking acquire returned %r" % (tid, val))
@@ -442,7 +489,7 @@ def check(case, log):
     want_who = [stid.rsplit("/", 1)[0]]
     # an exception that a caller does not catch travels on to that caller's caller
     while (is_exc and "/" in want_who[-1] and ix.ends.get(want_who[-1], (0, 0, 0, None))[3] == "uncaught"
-           and ix.steps[want_who[-1]][-1][4] == {"exc": ["SubError", tok]}):
+           and ix.steps[want_who[-1]][-1][4] in ({"exc": ["SubError", tok]}, {"exc": ["HBase", tok]})):
       want_who.append(want_who[-1].rsplit("/", 1)[0])
     want_who = [w for w in want_who if not is_poisoned(w)]
     who = [w for w in who if not is_poisoned(w)]
@@ -505,7 +552,7 @@ def check(case, log):
           break
         low = low + t
         last_u = ftime + t
-        cont = rec and not (ret is False and spec.get("self_stop", True)) and ret != "cancel"
+        cont = rec and not (ret is False and spec.get("self_stop", True)) and ret not in ("cancel", "raise", "raise-base")
       else:
         if cont and canc is None and judge_liveness and last_u <= stop_time:
           fail("timer-never-fired" if not fl else "timer-stopped-firing",
@@ -624,6 +671,14 @@ def _check_idle(case, ix, fail, P, is_poisoned, timers):
           why = "s%d writable at %s" % (op["sock"], x)
         elif op.get("t") is not None and not tried and rtime + op["t"] < b:
           why = "its timeout (%s) with no progress" % (rtime + op["t"])
+      elif kind == "rfop":
+        calls = [c for c in ix.rfs.get((tid, _pc_of(ix, tid, rseq)), []) if c[0] < q]
+        base = calls[-1][2] if calls else rtime
+        if not calls or calls[-1][3] == "abort":
+          if base + (op.get("delay") or 0) < b:
+            why = "its next slice (%s)" % (base + (op.get("delay") or 0))
+        else:
+          why = "its return function has completed"
       elif kind == "block":
         wk = [c for c in ix.acts if c[4] == "wake" and c[5] == tid and c[6] and rseq < c[0] < q]
         if wk:
@@ -648,11 +703,19 @@ def _check_idle(case, ix, fail, P, is_poisoned, timers):
       for (fseq, k, ftime, ret) in ix.fires.get(i, []):
         if fseq > q:
           break
-        alive = bool(spec.get("recurring")) and not (ret is False and spec.get("self_stop", True)) and ret != "cancel"
+        alive = (bool(spec.get("recurring")) and not (ret is False and spec.get("self_stop", True))
+                 and ret not in ("cancel", "raise", "raise-base"))
         u = ftime + spec["t"]
       if alive and u < b and ("T", i) not in reported:
         reported.add(("T", i))
         fail("slept-past-due", "the scheduler slept in select from %s to %s although timer %d was due by %s" % (a, b, i, u), op="timer")
+
+
+def _pc_of(ix, tid, rseq):
+  for step, (seq, pc, rtime, op) in ix.reqs.get(tid, {}).items():
+    if seq == rseq:
+      return pc
+  return -1
 
 
 def _check_cycles(ix, fail, P):
@@ -834,6 +897,21 @@ def labels(case, log):
         L.add("woken-late-by-other-work")
       if d is not None and res and res[1] == d and d > rtime:
         L.add("woken-exactly-on-time")
+  for (tid, pc), calls in ix.rfs.items():
+    for c in calls:
+      L.add("rf:" + c[3])
+    if sum(1 for c in calls if c[3] == "abort") >= 2:
+      L.add("rf:abort-twice")
+  for e in ix.log:
+    if e[0] == "end" and e[4] == "raise":
+      if "/" in e[1]:
+        sret = (programs(case).get(e[1], {}).get("sub") or {}).get("ret")
+        if isinstance(sret, dict) and sret.get("base"):
+          L.add("raise:BaseException-in-subtask")
+    if e[0] == "xexc" and e[2] == "HBase":
+      L.add("raise:BaseException-kills-task")
+    if e[0] == "fire" and e[4] in ("raise", "raise-base"):
+      L.add("timer:callback-" + e[4])
   partial = any(a not in ("eagain",) and a < off for (q, s, t, m, off, a) in ix.ssend if a != "eagain")
   if partial:
     L.add("send:partial")
